@@ -117,15 +117,16 @@ def render_structs(k, it: Item, meta, cfg, strum_path="strum"):
             "t[%s::%s].to_string()" % (it.ident, it.variants[i].ident) for i in en)
         arms["table"] = '''
             let ctor = args[0];
-            let mut t: %(tn)s<i64> = if ctor.starts_with("new:") {
+            let made = std::panic::catch_unwind(|| -> %(tn)s<i64> { if ctor.starts_with("new:") {
                 let v: Vec<i64> = ctor[4..].split(',').map(|x| x.parse().unwrap()).collect();
                 %(tn)s::new(%(newargs)s)
             } else if ctor.starts_with("filled:") {
                 %(tn)s::filled(ctor[7..].parse().unwrap())
-            } else { %(tn)s::from_closure(|e| 10 * (vidx(&e) as i64) + 1) };
+            } else { %(tn)s::from_closure(|e| 10 * (vidx(&e) as i64) + 1) } });
+            let mut t = match made { Ok(t) => t, Err(_) => return "panic-in-constructor".to_string() };
             let mut out: Vec<String> = Vec::new();
             for op in &args[1..] {
-                let r = match op.as_bytes()[0] {
+                let r = catch_mut(|| match op.as_bytes()[0] {
                     b'r' => { let i: usize = op[1..].parse().unwrap(); catch_mut(|| t[var(i)].to_string()) }
                     b'w' => { let mut p = op[1..].split('='); let i: usize = p.next().unwrap().parse().unwrap(); let x: i64 = p.next().unwrap().parse().unwrap();
                               catch_mut(|| { t[var(i)] = x; "ok".to_string() }) }
@@ -138,7 +139,7 @@ def render_structs(k, it: Item, meta, cfg, strum_path="strum"):
                               let o = t.transform(|e, x| if (mask >> slotpos(&e)) & 1 == 1 { Err::<i64, usize>(slotpos(&e)) } else { Ok(*x) });
                               match o.all_ok() { Ok(t) => format!("ok{}", %(dump)s), Err(p) => format!("err{}", p) } }
                     _ => "HARNESS-BAD-OP".to_string(),
-                };
+                });
                 out.push(r);
             }
             out.join(";")
